@@ -1,7 +1,7 @@
 \* edge emission, grid/cache focus: assembly (axial bounds) > block (hex pitch) (quick)
-CONSTANTS N = 2  Par = {"p", "q"}  NVal = 2  NGrid = 2  MaxDepth = 3  MaxLevel = 6
+CONSTANTS N = 2  Par = {"p", "q"}  NVal = 2  NGrid = 2  MaxDepth = 2  MaxLevel = 6
           GridSlot = "stack"  PickleSerial = "fresh"  DbSerial = "max"
-CONSTANTS Keeps <- KeepsNone  Acts <- ActsGrid  Parent0 <- ParentE  Cls0 <- ClsE
+CONSTANTS Keeps <- KeepsNone  Acts <- ActsGridQ  Parent0 <- ParentE  Cls0 <- ClsE
           ParOf <- McParOf  GridCls <- McGridCls  MatCls <- McMatCls
           DbCls <- McDbCls  CopyCls <- McAllCls  CallsOf <- McCallsOf  Unset0 <- NoUnset  Link0 <- LinkNone
 ACTION_CONSTRAINT Emit
